@@ -1,6 +1,7 @@
 package props
 
 import (
+	"bytes"
 	"context"
 	"crypto/sha512"
 	"encoding/json"
@@ -666,6 +667,16 @@ func c03Check(r *vcore.Run) vcore.Coverage {
 			for _, e := range stdErrors {
 				recCases = append(recCases, c03RecCase{Config: cfg, Method: m, Args: c03RecArgs()[0], Err: e.Code()})
 			}
+		}
+	}
+	// manifests around and above 4 MiB (the size the distribution specification asks registries to accept at
+	// least): the backend must be handed exactly the caller's bytes, or the push must fail
+	for _, cfg := range []c03Config{{Stack: "http1", Opts: "none", ListPage: 2}, {Stack: "http2", Opts: "none", ListPage: 1000}} {
+		for _, n := range []int{4<<20 - 1, 4 << 20, 4<<20 + 17} {
+			a := c03RecArgs()[0]
+			a.Data = bytes.Repeat([]byte{'m'}, n)
+			a.MediaType = mtOpaque
+			recCases = append(recCases, c03RecCase{Config: cfg, Method: "PushManifest", Args: a})
 		}
 	}
 	vcore.ParallelN(len(recCases), func(i int) { c03RunRec(r, recCases[i]) })
